@@ -163,9 +163,29 @@ def parse_axioms(output):
 
 # ---------------------------------------------------------------- running ops
 
-def _run_lines(cmd, lines, timeout=3600):
+# one budget per check run for the harness / model driver processes: a change to the code can make the real
+# search run on and on (e.g. a clock that stops answering) — the check must still end, reporting the broken tie.
+# quick tier: ~10x the slowest quick check; thorough: the old hour per call.
+RUN_TIMEOUT = 420 if os.environ.get("VERIF_TIER", "quick") != "thorough" else 3600
+_TIMED_OUT = []
+
+
+def set_tier(tier):
+    global RUN_TIMEOUT
+    RUN_TIMEOUT = 3600 if tier == "thorough" else 420
+
+
+def _run_lines(cmd, lines, timeout=None):
+    if _TIMED_OUT:
+        raise RuntimeError("%s did not finish within %d s on an earlier batch of this run; no further batches are started"
+                           % (_TIMED_OUT[0], RUN_TIMEOUT))
     data = "\n".join(lines) + "\n"
-    r = subprocess.run(cmd, input=data, capture_output=True, text=True, timeout=timeout)
+    try:
+        r = subprocess.run(cmd, input=data, capture_output=True, text=True, timeout=timeout or RUN_TIMEOUT)
+    except subprocess.TimeoutExpired:
+        _TIMED_OUT.append(os.path.basename(cmd[0]))
+        raise RuntimeError("%s did not finish within %d s (batch of %d ops starting with %r)"
+                           % (os.path.basename(cmd[0]), timeout or RUN_TIMEOUT, len(lines), lines[0][:120] if lines else ""))
     return r.stdout.splitlines(), r.returncode, r.stderr
 
 
